@@ -94,6 +94,10 @@ def gen(rng, tier, quarantine=()):
             if pid in blocks:
                 blocks.remove(pid)
             ops.append({"op": "exit", "id": pid, "exc": kinds[pid] == "block" and rng.random() < 0.3})
+        elif r < 0.6 and "no-double-exit" not in quarantine:
+            done = [f"p{i}" for i in range(nprobes) if f"p{i}" not in active and f"p{i}" not in inactive]
+            if done:
+                ops.append({"op": "exit", "id": rng.choice(done), "again": True})
         else:
             ops.append({"op": "call", "fn": rng.choice(fns + ["S"]), "nargs": 1,
                         "tape": tree_tape(rng, rng.randint(2, 24), set(fns), pc, rng.choice([0.0, 0.5])),
